@@ -385,7 +385,7 @@ theorem entryFrame_exact (cfg : ECfg) (hfa : cfg.fixArg = true) (hfp : cfg.fixPa
     refine ⟨?_, ?_, ?_, a4⟩
     · rw [a1, hm0, specReads_mask0]; simp
     · intro _; rw [a2]; omega
-    · rw [hfl]; simp [hm0]
+    · rw [hfl]
 
 /-- the event area after the exit hook: the specified diff events on top of the entry hook's events -/
 theorem exitFrame_exact (cfg : ECfg) (hfa : cfg.fixArg = true) (hfp : cfg.fixPair = true) (k : Kind) (f t0 t1 d : Nat)
